@@ -24,8 +24,9 @@ def run(out: common.Outcome):
     rnd = random.Random(out.seed + 12)
     model = Model()
     corr = Corr(out, model, rnd)
-    out.coverage["source_pin"] = common.source_hash(system_common.PINS + ["src/xdist/plugin.py"])
+    common.pins_changed(out, system_common.PINS + ["src/xdist/plugin.py"])
     n = 200 if out.tier == "quick" else 6000
+    n = int(n * out.boost)
     # replacement ids in simulated sessions: distinct, gwN, never reused
     jobs = system_common.make_jobs(rnd, n, "crash")
     good = system_common.run_sessions(out, corr, rnd, jobs, ["internal_error"], "sessions(crash)",
@@ -39,6 +40,7 @@ def run(out: common.Outcome):
     model.close()
     # ---- glue: environment, fixtures, temporary directories in real runs with replacements
     nruns = 2 if out.tier == "quick" else 10
+    nruns = int(nruns * out.boost)
     runs = 0
     for k in range(nruns):
         proj = e2e.new_project()
